@@ -224,3 +224,37 @@ func genLockWindow(r *Rng, cfg *Config) []Op {
 	}
 	return ops
 }
+
+// genFailedCheckpoint emits a litestream checkpoint (or sync that checkpoints)
+// whose PRAGMA or bookkeeping statement fails, or whose caller gives up
+// (context cancelled) at a statement boundary, followed by the application
+// activity that is dangerous if litestream lost its read lock on that path:
+// a commit and a checkpoint that resets the WAL.
+func genFailedCheckpoint(r *Rng, cfg *Config) []Op {
+	var ops []Op
+	if r.Chance(0.5) {
+		ops = append(ops, appOp(genTxn(r, cfg)))
+	}
+	op := Op{Kind: "ls_ckpt", Mode: ckptModes[r.Pick([]int{4, 2, 3, 4})]}
+	if r.Chance(0.3) {
+		op = Op{Kind: PickOf(r, []string{"ls_sync", "ls_sync_wait", "ls_http_sync"})}
+	}
+	site := PickOf(r, []string{"sql:pragma:wal_checkpoint", "sql:pragma:wal_checkpoint", "sql:begin", "sql:select:seq", "sql:insert:seq", "sql:insert:lock", "sql:rollback", "ckpt:pragma_done", "ckpt:read_lock_released"})
+	st := Step{K: "sql_fail"}
+	switch r.Pick([]int{4, 2, 4}) {
+	case 1:
+		st.Mode = "busy"
+	case 2:
+		st = Step{K: "cancel_ctx"}
+	}
+	op.Interpose = []Interpose{{Site: site, Nth: r.Pick([]int{6, 3, 1}) + 1, Steps: []Step{st}}}
+	ops = append(ops, op)
+	tx := genTxn(r, cfg)
+	tx.Rollback = false
+	ops = append(ops, appOp(tx), appOp(Step{K: "ckpt", Mode: ckptModes[r.Pick([]int{1, 2, 3, 5})]}))
+	if r.Chance(0.5) {
+		ops = append(ops, appOp(genTxn(r, cfg)))
+	}
+	ops = append(ops, Op{Kind: "ls_sync_wait"})
+	return ops
+}
